@@ -29,6 +29,8 @@ type Run struct {
 	// per-run engine options
 	Debug  bool   `json:"debug"`
 	Writer string `json:"writer"`
+	// per-run context (overrides the case's)
+	Ctx json.RawMessage `json:"ctx"`
 }
 
 type Expect struct {
@@ -41,6 +43,8 @@ type Expect struct {
 	// Always: spy counts that must hold whatever the outcome (e.g. a forbidden
 	// callback was never invoked although the render failed)
 	Always json.RawMessage `json:"always"`
+	// Absent: text that must not occur in the output (context data in a verbatim body)
+	Absent []int `json:"absent"`
 }
 
 type Cfg struct {
@@ -364,7 +368,13 @@ func checkCase(c *Case, limit time.Duration) (res Result, hung bool) {
 		if i == 0 {
 			res.Src = short(src)
 		}
-		o := renderRunTimed(c, r, ctx, limit)
+		rctx := ctx
+		if len(r.Ctx) > 0 {
+			if rc, err := scopeOf(r.Ctx); err == nil {
+				rctx = rc
+			}
+		}
+		o := renderRunTimed(c, r, rctx, limit)
 		fail := func(why, got, want string) {
 			res.Pass = false
 			all := []string{}
@@ -416,6 +426,11 @@ func checkCase(c *Case, limit time.Duration) (res Result, hung bool) {
 				if o.counts[k] != v {
 					fail("calls", fmt.Sprintf("%s=%d", k, o.counts[k]), fmt.Sprintf("%s=%d", k, v))
 				}
+			}
+		}
+		if len(c.Expect.Absent) > 0 && o.ok {
+			if needle := textOf(c.Expect.Absent, nil, false); strings.Contains(o.out, needle) {
+				fail("contains-forbidden-text", o.out, "not containing "+needle)
 			}
 		}
 		for k, v := range countsOf(c.Expect.Always) {
